@@ -60,6 +60,9 @@ type WatchFault struct {
 	Dup        map[int]bool  // delivery indices that are sent twice
 	// Frames[i] are extra frames sent before the event with delivery index i.
 	Frames map[int][]watch.Event
+	// BookmarkAtClose: when CloseAfter ends the stream, a BOOKMARK frame carrying
+	// the version of the last event sent on this stream goes out first.
+	BookmarkAtClose bool
 	// Slow: virtual delay before each delivery
 	Slow time.Duration
 }
@@ -490,6 +493,16 @@ func (st *stream) feed(ctx context.Context) {
 	idx := 0 // delivery index
 	for {
 		if f.CloseAfter >= 0 && idx >= f.CloseAfter {
+			if f.BookmarkAtClose {
+				// what an API server may do: a bookmark carrying the version of the last
+				// event it has sent on this stream, right before the stream ends
+				s.mu.Lock()
+				last := st.call.LastRV
+				s.mu.Unlock()
+				if last > 0 {
+					st.send(ctx, BookmarkFrame(last))
+				}
+			}
 			return
 		}
 		s.mu.Lock()
